@@ -16,6 +16,13 @@ pub struct TokCase {
     pub class: String,
 }
 
+/// field numbers whose option letter the tokeniser is documented to keep (doc comment and table of
+/// normalize_field_tag at the pinned commit)
+const LETTER_KEPT: &[&str] = &[
+    "11", "13", "21", "23", "25", "26", "28", "32", "33", "34", "37", "50", "51", "52", "53", "54",
+    "55", "56", "57", "58", "59", "60", "62", "71", "77", "90",
+];
+
 fn numeric_base(tag: &str) -> String {
     tag.chars().take_while(|c| c.is_ascii_digit()).collect()
 }
@@ -203,6 +210,18 @@ pub fn oracle(c: &TokCase, obs: &mut Obs) -> Vec<Violation> {
                 format!(
                     "entry {i} in position order is {:?} but field {i} of the text is {}:{:?}",
                     f, t.tag, t.content
+                ),
+            ));
+            return out;
+        }
+        // option letter removed only where the library documents it: normalize_field_tag keeps the
+        // letter for these field numbers ("to avoid conflicts", src/parser/generated.rs)
+        if f.0 != t.tag && f.0 == base && LETTER_KEPT.contains(&base.as_str()) {
+            out.push(viol(
+                format!("C16|tokenise|letter-removed|{base}"),
+                format!(
+                    "field {} is stored under {} although the library documents that field {} keeps its option letter",
+                    t.tag, f.0, base
                 ),
             ));
             return out;
@@ -456,6 +475,7 @@ pub fn oracle(c: &TokCase, obs: &mut Obs) -> Vec<Violation> {
 
 pub fn run(ctx: &Ctx) {
     ctx.add_rule("bulk texts (token lists of several generated messages concatenated and cut at 130..4097 fields around every power of two; up to 65 536 in the thorough tier) with histories of up to 600 requests focused on one tag; and per message type: well-delimited block-4 texts (valid and structurally mutated: unknown tags, duplicates, reorderings; LF/CRLF; leading/trailing blank lines) as extract_block returns them, plus a history of up to 40 consumption requests (peek / take by tag, find by base tag with and without option constraints); oracle: reference tokenizer list == map flattened by position (tag or its numeric base, content up to surrounding white space, positions strictly increasing), a per-tag model of the tracker, and partition checks for split_into_sequences / parse_repetitive_sequence; non-trivial = a tag occurs twice, or a history mixing take and find; distinct by text/history");
+    ctx.assume("the option letter may be removed only for field numbers outside the table normalize_field_tag documents (11 13 21 23 25 26 28 32 33 34 37 50-60 62 71 77 90)");
     ctx.assume("domain: content lines never start with ':' or '-' and nothing precedes the first field (the tokeniser's behaviour there is documented nowhere)");
     ctx.assume("find-by-base: the letterless tag is served before lettered ones (the function documents it); among lettered tags the earliest unconsumed eligible occurrence in input order is expected");
     let to_json = |c: &TokCase| serde_json::to_value(c).unwrap();
